@@ -41,6 +41,13 @@ def allowUnguarded : List (String × String × Bool) := [
     setup, when no handler (the only code that takes `Client.mu` while holding `state`) can run. -/
 def allowEdges : List (String × String) := [("Client.mu", "state")]
 
+/-- … which is only sound if the OPPOSITE order (`Client.mu` taken while the state lock is held) occurs nowhere but in
+    code that cannot run during connection setup and teardown. These are all the functions allowed to hold the state lock
+    while `Client.mu` is acquired (by themselves or by a callee): the internal CAP handler (it asks for the TLS state of
+    the connection it is running on). A getter that did the same — callable by any goroutine at any time — would deadlock
+    against `internalConnect` (state-then-mu against mu-then-state). -/
+def reverseHolders : List String := ["handleCAP"]
+
 /-- Blocking operations that are allowed while a lock is held (function, kind, lock), each bounded:
     * `write` waits (≤ 30 s) for room in `tx` holding `Client.mu` shared;
     * `internalConnect` dials holding `Client.mu` exclusively (bounded by the dialer's timeout);
